@@ -19,6 +19,7 @@ def plan(tier, seed):
         jobs.append(j)
     jobs.append(ch("C19", G, "h_find_max_part", t, ["writer.find_max_part", "api.part_ids"]))
     jobs.append(ch("C19", G, "h_find_max_part_dirs", t, ["writer.find_max_part", "api.part_ids"]))
+    jobs.append(ch("C19", G, "h_find_max_part_order", t, ["writer.find_max_part", "api.part_ids"]))
     try:
         from . import partnames
         jobs += partnames.jobs("C19", tier)
